@@ -68,6 +68,7 @@ type Step struct {
 	Layer   string `json:"layer"`
 	Carry   string `json:"carry"`
 	// roots
+	Freqs  []int     `json:"freqs"` // submit: requests per FRONTEND (base URI)
 	N      int       `json:"n"`
 	Cls    []string  `json:"cls"`
 	Order  []Arrival `json:"order"`
@@ -80,8 +81,74 @@ type Step struct {
 // Case is one exported case: the shard list ([lower, upper] per shard, -1 = absent) and the calls.
 type Case struct {
 	Shards [][]int `json:"shards"`
+	Dep    *Dep    `json:"dep,omitempty"`
 	Step   *Step   `json:"step,omitempty"`
 	Steps  []Step  `json:"steps,omitempty"`
+}
+
+// Dep is the deployment of the temporal log (TemporalClient.tla, SharedFrontend): per shard position the frontend
+// (base URI) it is served from and the number of the key it is configured with (unkeyed: no key).
+type Dep struct {
+	URI []int `json:"uri"`
+	Key []int `json:"key"`
+}
+
+const unkeyed = -2
+
+var classic = &Dep{URI: []int{1, 2, 3}, Key: []int{1, 2, 3}}
+
+func (d *Dep) isClassic() bool {
+	return d == nil || fmt.Sprint(d.URI, d.Key) == fmt.Sprint(classic.URI, classic.Key)
+}
+
+func (c Case) dep() *Dep {
+	if c.Dep == nil {
+		return classic
+	}
+	return c.Dep
+}
+
+// front is the frontend of shard s (1-based), 0 for nobody.
+func (d *Dep) front(s int) int {
+	if s == 0 {
+		return 0
+	}
+	return d.URI[s-1]
+}
+
+func (d *Dep) keyed(s int) bool { return d.Key[s-1] != unkeyed }
+
+// ownKey mirrors OwnKey of the specification: the number of the key shard s's log signs with.
+func (d *Dep) ownKey(s int) int {
+	if d.keyed(s) {
+		return d.Key[s-1]
+	}
+	return s
+}
+
+// tag names what shard s (of n) shares with the other shards of the list; empty in the classic deployment.
+func (d *Dep) tag(s, n int) string {
+	if s == 0 {
+		return ""
+	}
+	out := ""
+	uri, key := false, false
+	for o := 1; o <= n; o++ {
+		if o != s {
+			uri = uri || d.URI[o-1] == d.URI[s-1]
+			key = key || (d.keyed(s) && d.Key[o-1] == d.Key[s-1])
+		}
+	}
+	if uri {
+		out += "@sharedURI"
+	}
+	if key {
+		out += "@sharedKey"
+	}
+	if !d.keyed(s) {
+		out += "@unkeyed"
+	}
+	return out
 }
 
 func (c Case) steps() []Step {
@@ -102,10 +169,16 @@ var zones = []*time.Location{time.UTC, time.FixedZone("east", 5*3600+1800), time
 
 func (m mat) at(k int) time.Time { return base.Add(time.Duration(k) * m.unit) }
 
-func cfgFor(w *c12.TWorld, m mat, shards [][]int) *configpb.TemporalLogConfig {
+func cfgFor(w *c12.TWorld, m mat, shards [][]int, d *Dep) *configpb.TemporalLogConfig {
 	cfg := &configpb.TemporalLogConfig{}
 	for i, sh := range shards {
-		s := &configpb.LogShardConfig{Uri: w.Shards[i+1].URI(), PublicKeyDer: w.Shards[i+1].SPKI}
+		s := &configpb.LogShardConfig{Uri: w.Shards[d.URI[i]].URI()}
+		if m.unit != time.Second && i%2 == 1 {
+			s.Uri = strings.TrimRight(s.Uri, "/") // the same base URI, written without the trailing slash
+		}
+		if d.keyed(i + 1) {
+			s.PublicKeyDer = w.Shards[d.Key[i]].SPKI
+		}
 		if sh[0] >= 0 {
 			s.NotAfterStart = timestamppb.New(m.at(sh[0]).In(zones[(i+sh[0])%len(zones)]))
 		}
@@ -169,6 +242,7 @@ func dsOf(d ct.DigitallySigned) []byte {
 type script struct {
 	w      *c12.TWorld
 	st     Step
+	dep    *Dep
 	name   string
 	ch     *c12.Chain
 	cancel context.CancelFunc
@@ -191,12 +265,13 @@ func (sc *script) serve(s int, req *http.Request) (*http.Response, error) {
 		}
 		return c12.TRespond(req, 200, sc.w.RenderSCT(s, 0, sc.name, sc.ch, "valid").Bytes, nil), nil
 	}
-	if s != sc.st.Routed || sc.st.End == "refused" {
+	// s is the FRONTEND the request reached
+	if s != sc.dep.front(sc.st.Routed) || sc.st.End == "refused" {
 		return honest()
 	}
 	if n <= len(sc.st.Answers) {
 		a := sc.st.Answers[n-1]
-		b := sc.w.RenderSCT(s, a.Who, sc.name, sc.ch, a.Class)
+		b := sc.w.RenderSCT(sc.dep.ownKey(sc.st.Routed), a.Who, sc.name, sc.ch, a.Class) // "self" is the key of the shard the answer is for
 		sc.mu.Lock()
 		sc.served = append(sc.served, b)
 		sc.mu.Unlock()
@@ -269,6 +344,7 @@ func (t *tally) add(k string) {
 // runSubmissions replays the submissions of one case on a fresh real TemporalLogClient inside a bubble.
 func runSubmissions(t *testing.T, rep *vh.Report, tl *tally, w *c12.TWorld, m mat, c Case) {
 	steps := c.steps()
+	dep := c.dep()
 	synctest.Test(t, func(t *testing.T) {
 		tr := &c12.TTransport{W: w}
 		var mu sync.Mutex
@@ -280,11 +356,11 @@ func runSubmissions(t *testing.T, rep *vh.Report, tl *tally, w *c12.TWorld, m ma
 			return sc.serve(s, req)
 		}
 		ctxt := func(n int) map[string]any {
-			return map[string]any{"case": Case{Shards: c.Shards, Steps: steps[:n+1]}, "world": w.Name, "unit": m.unit.String()}
+			return map[string]any{"case": Case{Shards: c.Shards, Dep: c.Dep, Steps: steps[:n+1]}, "world": w.Name, "unit": m.unit.String()}
 		}
-		tlc, err := client.NewTemporalLogClient(cfgFor(w, m, c.Shards), &http.Client{Transport: tr})
+		tlc, err := client.NewTemporalLogClient(cfgFor(w, m, c.Shards, dep), &http.Client{Transport: tr})
 		if err != nil {
-			rep.Violate("temporal:constructor-refused-wellformed-list", fmt.Sprintf("NewTemporalLogClient refused the contiguous list %v: %v", c.Shards, err), ctxt(0))
+			rep.Violate("temporal:constructor-refused-wellformed-list", fmt.Sprintf("NewTemporalLogClient refused the contiguous list %v (deployment %v): %v", c.Shards, *dep, err), ctxt(0))
 			return
 		}
 		for n, st := range steps {
@@ -297,14 +373,15 @@ func runSubmissions(t *testing.T, rep *vh.Report, tl *tally, w *c12.TWorld, m ma
 				before[s] = len(tr.Requests(s))
 			}
 			ctx, cancel := context.WithTimeout(context.Background(), 40*time.Second+time.Duration(len(st.Answers))*300*time.Second)
-			sc := &script{w: w, st: st, name: name, ch: ch, cancel: cancel}
+			sc := &script{w: w, st: st, dep: dep, name: name, ch: ch, cancel: cancel}
 			mu.Lock()
 			cur = sc
 			mu.Unlock()
-			lbl := label(st)
+			lbl := label(st) + dep.tag(st.Routed, len(c.Shards))
+			front := dep.front(st.Routed) // the frontend (base URI) of the routed shard
 			fp := func(what string) string { return "temporal:" + st.Method + ":" + lbl + ":" + what }
-			desc := fmt.Sprintf("%s(%s, first=%s, NotAfter=tick %d) on shards %v [%s], answers %v end=%s (world %s, unit %v)", st.Method, st.Chain, st.First,
-				st.Na, c.Shards, where(st, c.Shards), st.Answers, st.End, w.Name, m.unit)
+			desc := fmt.Sprintf("%s(%s, first=%s, NotAfter=tick %d) on shards %v [%s] deployed as uri=%v key=%v, answers %v end=%s (world %s, unit %v)", st.Method, st.Chain, st.First,
+				st.Na, c.Shards, where(st, c.Shards), dep.URI, dep.Key, st.Answers, st.End, w.Name, m.unit)
 			var sct *ct.SignedCertificateTimestamp
 			var cerr error
 			chain := asn1Chain(ch.DER)
@@ -335,13 +412,13 @@ func runSubmissions(t *testing.T, rep *vh.Report, tl *tally, w *c12.TWorld, m ma
 			for s := 1; s <= 3; s++ {
 				seen[s] = tr.Requests(s)[before[s]:]
 				total += len(seen[s])
-				if len(seen[s]) > 0 && s != st.Routed {
+				if len(seen[s]) > 0 && s != front {
 					what := "wrong-shard"
 					if st.Routed == 0 {
 						what = "contacted-though-unroutable"
 					}
-					rep.Violate("temporal:route:"+where(st, c.Shards)+":"+what, fmt.Sprintf("%s: shard %d received %d request(s); the specification routes to %d (0 = nobody)",
-						desc, s, len(seen[s]), st.Routed), ctxt(n))
+					rep.Violate("temporal:route:"+where(st, c.Shards)+":"+what, fmt.Sprintf("%s: frontend %d received %d request(s); the specification routes to the shard at frontend %d (0 = nobody)",
+						desc, s, len(seen[s]), front), ctxt(n))
 				}
 				for _, r := range seen[s] {
 					wantPath := "/ct-shard/ct/v1/add-chain"
@@ -361,8 +438,8 @@ func runSubmissions(t *testing.T, rep *vh.Report, tl *tally, w *c12.TWorld, m ma
 			if st.First == "lax" {
 				followed = (st.End == "refused") == (total == 0)
 			}
-			if st.Routed != 0 && st.First == "cert" && len(seen[st.Routed]) != st.Reqs[st.Routed-1] {
-				rep.Violate(fp("requests-differ"), fmt.Sprintf("%s: the routed shard received %d request(s), the specification sends %d", desc, len(seen[st.Routed]),
+			if st.Routed != 0 && st.First == "cert" && len(seen[front]) != st.Reqs[st.Routed-1] {
+				rep.Violate(fp("requests-differ"), fmt.Sprintf("%s: the routed shard received %d request(s), the specification sends %d", desc, len(seen[front]),
 					st.Reqs[st.Routed-1]), ctxt(n))
 			}
 			// ---- pacing state of every shard's client (NoCrossTalk)
@@ -378,8 +455,8 @@ func runSubmissions(t *testing.T, rep *vh.Report, tl *tally, w *c12.TWorld, m ma
 							mlt, st.Mult[i], st.Mult), ctxt(n))
 					}
 				}
-				if st.Routed != 0 && len(seen[st.Routed]) == st.Reqs[st.Routed-1] {
-					rs := seen[st.Routed]
+				if st.Routed != 0 && len(seen[front]) == st.Reqs[st.Routed-1] {
+					rs := seen[front]
 					for i := 0; i+1 < len(rs) && i < len(st.Waits); i++ {
 						gap, min := rs[i+1].At.Sub(rs[i].At), time.Duration(st.Waits[i])*time.Second
 						if gap < min || gap >= min+jitter {
@@ -422,12 +499,15 @@ func runSubmissions(t *testing.T, rep *vh.Report, tl *tally, w *c12.TWorld, m ma
 			}
 			tl.add(kind + "/value")
 			rep.Eval(w.Name + ":" + kind + ":" + where(st, c.Shards))
+			if st.Routed != 0 && !dep.keyed(st.Routed) {
+				continue // UnkeyedShard: what a shard configured without a key hands back is not judged
+			}
 			// a value came back: the property itself, against the key of the ROUTED shard and the SUBMITTED chain
 			if st.Routed == 0 {
 				rep.Violate(fp("returned-ok"), desc+": an SCT was returned although no shard encompasses the date / nothing could be parsed", ctxt(n))
 				continue
 			}
-			shard := w.Shards[st.Routed]
+			shard := w.Shards[dep.ownKey(st.Routed)] // the key CONFIGURED for the routed shard
 			bad := ""
 			switch {
 			case sct.SCTVersion != 0:
@@ -529,7 +609,7 @@ func runRoots(t *testing.T, rep *vh.Report, tl *tally, w *c12.TWorld, m mat, c C
 			status, body := w.PKI().RootsBody(st.Cls[s-1], rootList(st.Cls[s-1]))
 			return c12.TRespond(req, status, body, nil), nil
 		}
-		tlc, err := client.NewTemporalLogClient(cfgFor(w, m, c.Shards), &http.Client{Transport: tr})
+		tlc, err := client.NewTemporalLogClient(cfgFor(w, m, c.Shards, c.dep()), &http.Client{Transport: tr})
 		if err != nil {
 			rep.Violate("temporal:constructor-refused-wellformed-list", fmt.Sprintf("NewTemporalLogClient refused the contiguous list %v: %v", c.Shards, err), ctxt)
 			return
@@ -779,8 +859,8 @@ func TestSubmit(t *testing.T) {
 		each(t, len(cases), func(t *testing.T, i int) {
 			sts := cases[i].steps()
 			for wi, w := range ws {
-				if len(sts) == 1 && len(sts[0].Answers) <= 1 {
-					for _, m := range units { // single answers are cheap: every materialization
+				if len(sts) == 1 && len(sts[0].Answers) <= 1 && cases[i].Dep.isClassic() {
+					for _, m := range units { // single answers are cheap: every materialization (shared deployments: alternating)
 						runSubmissions(t, rep, tl, w, m, cases[i])
 					}
 					continue
